@@ -454,7 +454,8 @@ def main():
     searched = 0
     # The sources the model was transcribed from differ from the recorded fingerprints (tools/src_baseline.py):
     # not an alarm and not part of the tie, but a reason to spend the search budget in the quick tier too.
-    src_changed = src_baseline.changed(os.environ.get("HIFI_REPO", "/repo")) if tier == "quick" else []
+    # (VERIF_NO_EXTENDED_SEARCH=1 is used only by the lead's own control sweeps to save time; no registered command sets it)
+    src_changed = src_baseline.changed(os.environ.get("HIFI_REPO", "/repo")) if tier == "quick" and not os.environ.get("VERIF_NO_EXTENDED_SEARCH") else []
     if src_changed:
         log("sources differ from the recorded baseline (%s): quick tier runs the extended search" % ", ".join(src_changed[:6]))
     if (not info["proof_ok"] or ties or src_changed) and not viol:
